@@ -41,7 +41,9 @@ Generic(pre, ev) ==
   \* (IF .. THEN TRUE ELSE ..: inside an action TLC evaluates BOTH sides of a disjunction)
   IF ev.op = "drop" /\ PROP \notin {"C04", "C18"} THEN TRUE
   ELSE IF ev.panic /\ PROP \notin {"C05", "C16", "C18", "C07"} THEN TRUE
-  ELSE CASE PROP = "C01" -> C01View(OV(ev.obs)) /\ AccessorsOK(ev.obs)
+  ELSE CASE PROP = "C01" -> \* (in clone mode the copy is a cache too: its bounds and accessors are judged as well)
+                             (IF "len" \in DOMAIN ev.obs THEN C01View(OV(ev.obs)) /\ AccessorsOK(ev.obs) ELSE TRUE)
+                             /\ (IF "obs2" \in DOMAIN ev /\ "len" \in DOMAIN ev.obs2 THEN C01View(OV(ev.obs2)) /\ AccessorsOK(ev.obs2) ELSE TRUE)
          [] PROP = "C02" -> C02Step(OV(pre), ev, OV(ev.obs))
          [] PROP = "C03" -> C03Audit(ev.obs) /\ ev.anomalies = <<>>
          [] PROP = "C04" -> C04Event(TokOf(pre), ev, IF ev.op = "drop" THEN <<>> ELSE TokOf(ev.obs))
